@@ -71,6 +71,11 @@ func ParseEngineValue(s string) string {
 		return s
 	}
 	if strings.HasPrefix(s, "'") {
+		// a numeric string denotes the number (set operations may unify a DECIMAL and an INT
+		// branch to a text type; the value is what is compared, its result type is C09's business)
+		if r, ok := new(big.Rat).SetString(strings.Trim(s, "'")); ok && len(s) > 2 {
+			return NumKey(r)
+		}
 		return s
 	}
 	r, ok := new(big.Rat).SetString(s)
